@@ -46,6 +46,7 @@ use vx_std_str::*;
 // ---------------------------------------------------------------------------------------------
 /// the offset behind the first `n` consecutive length-prefixed sections of `s`; Err(why) if one of them has a malformed /
 /// truncated length var-int or a truncated payload (the FIRST such section decides)
+#[verifier::opaque]
 pub open spec fn secs_end(s: Seq<u8>, n: nat) -> Result<nat, SecErr>
     decreases n,
 {
@@ -63,6 +64,7 @@ pub open spec fn secs_end(s: Seq<u8>, n: nat) -> Result<nat, SecErr>
 }
 
 /// the payload of the i-th section (0-based) of `s` (meaningful when secs_end(s, i + 1) is Ok)
+#[verifier::opaque]
 pub open spec fn sec(s: Seq<u8>, i: nat) -> Seq<u8> {
     dec_buf_v2(tail_from(s, secs_end(s, i)->Ok_0 as int))->Some_0.0
 }
@@ -72,6 +74,7 @@ pub open spec fn sec(s: Seq<u8>, i: nat) -> Seq<u8> {
 // which `DecoderV2::read_buf(buf, &mut idx)` is specified (tail_from(buf@, idx)), so that the exec proof is pure congruence; the
 // arithmetic of "offset in s = position in b - p0" is done once, in lemma_v2_layout_at.  The contract does not mention these.
 // ---------------------------------------------------------------------------------------------
+#[verifier::opaque]
 pub open spec fn secs_end_at(b: Seq<u8>, p0: int, n: nat) -> Result<int, SecErr>
     decreases n,
 {
@@ -88,6 +91,7 @@ pub open spec fn secs_end_at(b: Seq<u8>, p0: int, n: nat) -> Result<int, SecErr>
     }
 }
 
+#[verifier::opaque]
 pub open spec fn sec_at(b: Seq<u8>, p0: int, i: nat) -> Seq<u8> {
     dec_buf_v2(tail_from(b, secs_end_at(b, p0, i)->Ok_0))->Some_0.0
 }
@@ -122,7 +126,7 @@ pub open spec fn layout_at(b: Seq<u8>, p0: int) -> bool {
         Ok(p) => {
             &&& p0 <= p <= b.len()
             &&& secs_end(s, 9) == Ok::<nat, SecErr>((p - p0) as nat)
-            &&& tail_from(s, p - p0) == b.skip(p)
+            &&& s.skip(p - p0) == b.skip(p)
             &&& b.skip(p).skip(0) == b.skip(p)
             &&& sec(s, 0) == sec_at(b, p0, 0)
             &&& sec(s, 1) == sec_at(b, p0, 1)
@@ -145,6 +149,7 @@ pub proof fn lemma_secs_at_err_mono(b: Seq<u8>, p0: int, n: nat, m: nat)
         secs_end_at(b, p0, m) == secs_end_at(b, p0, n),
     decreases m,
 {
+    reveal_with_fuel(secs_end_at, 2);
     if n < m {
         lemma_secs_at_err_mono(b, p0, n, (m - 1) as nat);
     }
@@ -156,6 +161,8 @@ pub proof fn lemma_step_at(b: Seq<u8>, p0: int, n: nat)
     ensures
         step_at(b, p0, n),
 {
+    reveal_with_fuel(secs_end_at, 2);
+    reveal(sec_at);
     if secs_end_at(b, p0, n) is Ok && secs_end_at(b, p0, n + 1) is Err {
         lemma_secs_at_err_mono(b, p0, n + 1, 9);
     }
@@ -173,6 +180,9 @@ pub proof fn lemma_secs_at_rel(b: Seq<u8>, p0: int, n: nat)
         },
     decreases n,
 {
+    reveal(dec_buf_v2);
+    reveal_with_fuel(secs_end_at, 2);
+    reveal_with_fuel(secs_end, 2);
     let s = b.skip(p0);
     if n > 0 {
         lemma_secs_at_rel(b, p0, (n - 1) as nat);
@@ -191,6 +201,8 @@ pub proof fn lemma_sec_at_rel(b: Seq<u8>, p0: int, i: nat)
     ensures
         sec(b.skip(p0), i) == sec_at(b, p0, i),
 {
+    reveal(sec_at);
+    reveal(sec);
     if secs_end_at(b, p0, i) is Err {
         lemma_secs_at_err_mono(b, p0, i, 9);
     }
@@ -203,6 +215,7 @@ pub proof fn lemma_v2_layout_at(b: Seq<u8>, p0: int)
     ensures
         layout_at(b, p0),
 {
+    reveal_with_fuel(secs_end_at, 2);
     lemma_step_at(b, p0, 0);
     lemma_step_at(b, p0, 1);
     lemma_step_at(b, p0, 2);
@@ -255,7 +268,7 @@ pub open spec fn dec_v2_cols(s: Seq<u8>) -> Result<V2Cols, SecErr> {
             parent_info: sec(s, 6),
             type_ref: sec(s, 7),
             len: sec(s, 8),
-            rest: tail_from(s, o as int),
+            rest: s.skip(o as int),
         }),
     }
 }
@@ -329,6 +342,8 @@ impl<'a> StringDecoder<'a> {
         ensures vx_e is UnexpectedValue,
     @start
         proof {
+            reveal(dec_buf_v2);
+            reveal(buf_v2_err);
             assert forall|k: nat| k <= cursor.rest().len() implies #[trigger] cursor.rest().skip(k as int) == cursor.buf@.skip(cursor.next + k) by {
                 assert(cursor.rest().skip(k as int) =~= cursor.buf@.skip(cursor.next + k));
             }
@@ -370,15 +385,136 @@ impl<'a> DecoderV2<'a> {
                     Ok((text, lens)) => r is Ok && r->Ok_0.fresh_on(c, text, lens),
                 },
             },
-    @start
-        hide(dec_buf_v2);
-        hide(buf_v2_err);
-        hide(tail_from);
-        hide(secs_end);
-        hide(sec);
-        hide(secs_end_at);
-        hide(sec_at);
     @after 1 `stmt:let buf`
         proof { lemma_v2_layout_at(buf@, idx as int); }
     @*/
+}
+
+// ---------------------------------------------------------------------------------------------
+// C09 for the layout (and NON-VACUITY of the spec decoder): any nine buffers written as nine length-prefixed sections behind a
+// flag byte and followed by anything are read back as exactly these nine buffers and that rest.  This is the byte string
+// `EncoderV2::to_vec` builds -- `buf.write_u8(0)`, nine `buf.write_buf(col)` in the same order (WriteExt::write_buf, verified in
+// lib0_common: out() += enc_buf(col)), `buf.write_all(rest)`; to_vec itself is NOT under contract in this unit (its struct carries
+// a HashMap key table and the opaque StringEncoder), so the statement is about the layout, not about to_vec.
+// ---------------------------------------------------------------------------------------------
+/// the concatenated sections of `cols`
+pub open spec fn enc_secs(cols: Seq<Seq<u8>>) -> Seq<u8>
+    decreases cols.len(),
+{
+    if cols.len() == 0 {
+        Seq::empty()
+    } else {
+        enc_secs(cols.drop_last()) + enc_buf(cols.last())
+    }
+}
+
+pub proof fn lemma_enc_secs_take(cols: Seq<Seq<u8>>, n: nat)
+    requires
+        n < cols.len(),
+    ensures
+        enc_secs(cols.take(n + 1 as int)) == enc_secs(cols.take(n as int)) + enc_buf(cols[n as int]),
+{
+    assert(cols.take(n + 1 as int).drop_last() =~= cols.take(n as int));
+}
+
+/// the sections of a prefix of `cols` are a prefix of the sections of `cols`
+pub proof fn lemma_enc_secs_prefix(cols: Seq<Seq<u8>>, n: nat)
+    requires
+        n <= cols.len(),
+    ensures
+        enc_secs(cols.take(n as int)).len() <= enc_secs(cols).len(),
+        enc_secs(cols).take(enc_secs(cols.take(n as int)).len() as int) == enc_secs(cols.take(n as int)),
+    decreases cols.len() - n,
+{
+    if n == cols.len() {
+        assert(cols.take(n as int) =~= cols);
+        assert(enc_secs(cols).take(enc_secs(cols).len() as int) =~= enc_secs(cols));
+    } else {
+        lemma_enc_secs_prefix(cols, n + 1);
+        lemma_enc_secs_take(cols, n);
+        let a = enc_secs(cols.take(n as int));
+        let a1 = enc_secs(cols.take(n + 1 as int));
+        assert(enc_secs(cols).take(a.len() as int) =~= enc_secs(cols).take(a1.len() as int).take(a.len() as int));
+        assert(a1.take(a.len() as int) =~= a);
+    }
+}
+
+/// the first n sections of enc_secs(cols) + rest are cols[0..n]
+pub proof fn lemma_secs_of_enc(cols: Seq<Seq<u8>>, rest: Seq<u8>, n: nat)
+    requires
+        n <= cols.len(),
+        forall|i: int| 0 <= i < cols.len() ==> (#[trigger] cols[i]).len() <= usize::MAX,
+    ensures
+        secs_end(enc_secs(cols) + rest, n) == Ok::<nat, SecErr>(enc_secs(cols.take(n as int)).len()),
+        forall|i: nat| i < n ==> #[trigger] sec(enc_secs(cols) + rest, i) == cols[i as int],
+    decreases n,
+{
+    reveal_with_fuel(secs_end, 2);
+    reveal(sec);
+    let s = enc_secs(cols) + rest;
+    if n == 0 {
+        assert(cols.take(0) =~= Seq::<Seq<u8>>::empty());
+    } else {
+        let m = (n - 1) as nat;
+        lemma_secs_of_enc(cols, rest, m);
+        lemma_enc_secs_take(cols, m);
+        lemma_enc_secs_prefix(cols, n);
+        let a = enc_secs(cols.take(m as int));
+        let e = enc_buf(cols[m as int]);
+        let a1 = enc_secs(cols.take(n as int));
+        let tail = s.skip(a1.len() as int);
+        assert(a1 == a + e);
+        assert(enc_secs(cols).take(a1.len() as int) == a1);
+        assert(tail_from(s, a.len() as int) =~= e + tail) by {
+            assert forall|j: int| 0 <= j < e.len() implies s[a.len() + j] == e[j] by {
+                assert(enc_secs(cols).take(a1.len() as int)[a.len() + j] == (a + e)[a.len() + j]);
+            }
+        }
+        lemma_dec_enc_buf_v2(cols[m as int], tail);
+        assert forall|i: nat| i < n implies #[trigger] sec(s, i) == cols[i as int] by {
+            if i == m {
+            }
+        }
+    }
+}
+
+/// the byte string `to_vec` builds: flag, nine sections, rest
+pub open spec fn enc_v2_cols(flag: u8, c: V2Cols) -> Seq<u8> {
+    seq![flag] + enc_secs(seq![c.key_clock, c.client, c.left_clock, c.right_clock, c.info, c.string, c.parent_info, c.type_ref, c.len])
+        + c.rest
+}
+
+pub open spec fn v2_cols_encodable(c: V2Cols) -> bool {
+    &&& c.key_clock.len() <= usize::MAX
+    &&& c.client.len() <= usize::MAX
+    &&& c.left_clock.len() <= usize::MAX
+    &&& c.right_clock.len() <= usize::MAX
+    &&& c.info.len() <= usize::MAX
+    &&& c.string.len() <= usize::MAX
+    &&& c.parent_info.len() <= usize::MAX
+    &&& c.type_ref.len() <= usize::MAX
+    &&& c.len.len() <= usize::MAX
+}
+
+pub proof fn theorem_v2_layout_round_trip(flag: u8, c: V2Cols)
+    requires
+        v2_cols_encodable(c),
+    ensures
+        dec_v2_cols(v2_input(enc_v2_cols(flag, c))) == Ok::<V2Cols, SecErr>(c),
+{
+    let cols = seq![c.key_clock, c.client, c.left_clock, c.right_clock, c.info, c.string, c.parent_info, c.type_ref, c.len];
+    let s = enc_secs(cols) + c.rest;
+    assert(v2_input(enc_v2_cols(flag, c)) =~= s);
+    lemma_secs_of_enc(cols, c.rest, 9);
+    assert(cols.take(9) =~= cols);
+    assert(s.skip(enc_secs(cols).len() as int) =~= c.rest);
+    assert(sec(s, 0) == cols[0]);
+    assert(sec(s, 1) == cols[1]);
+    assert(sec(s, 2) == cols[2]);
+    assert(sec(s, 3) == cols[3]);
+    assert(sec(s, 4) == cols[4]);
+    assert(sec(s, 5) == cols[5]);
+    assert(sec(s, 6) == cols[6]);
+    assert(sec(s, 7) == cols[7]);
+    assert(sec(s, 8) == cols[8]);
 }
